@@ -37,19 +37,24 @@ NZ = 1 << 40
 NAN = 1 << 41     # tokens >= NAN: float NaN / record with a NaN field: == to nothing, not even themselves
 HM = 2147483647
 KINDS = {1: "vector", 2: "sequence", 3: "list", 4: "hashmap", 5: "hashmap-weakhash", 6: "stringbuilder", 7: "span", 8: "hash",
-         9: "stringbuilder-limited-allocator", 10: "vector-limited-allocator"}
+         9: "stringbuilder-limited-allocator", 10: "vector-limited-allocator", 11: "sequence-limited-allocator",
+         12: "hashmap-limited-allocator", 13: "list-limited-allocator"}
+BASEKIND = {10: 1, 11: 2, 12: 4, 13: 3}
 TYPES = {0: "integer", 1: "string", 2: "record", 3: "number"}
 OPN = {
-    1: {1: "push", 2: "pop", 3: "insert", 4: "remove", 5: "removevalue", 6: "removeif", 7: "resize", 8: "reserve", 9: "clear", 10: "copy", 11: "at", 12: "assign", 13: "destroy", 14: "convert", 15: "unpack"},
-    3: {1: "pushfront", 2: "pushback", 3: "popfront", 4: "popback", 5: "insertbefore", 6: "erasevalue", 7: "find", 8: "clear", 9: "empty", 10: "erase(nilptr)", 11: "destroy"},
+    1: {1: "push", 2: "pop", 3: "insert", 4: "remove", 5: "removevalue", 6: "removeif", 7: "resize", 8: "reserve", 9: "clear", 10: "copy", 11: "at", 12: "assign", 13: "destroy", 14: "convert", 15: "unpack", 16: "scoped-close"},
+    3: {1: "pushfront", 2: "pushback", 3: "popfront", 4: "popback", 5: "insertbefore", 6: "erasevalue", 7: "find", 8: "clear", 9: "empty", 10: "erase(nilptr)", 11: "destroy", 12: "scoped-close"},
     4: {1: "set", 2: "get", 3: "peek", 4: "has", 5: "has_and_get", 6: "remove", 7: "erase", 8: "clear", 9: "reserve", 10: "rehash", 11: "erase-while-iterating", 12: "next(k)", 13: "next()", 14: "probe", 15: "mpairs-update", 16: "next-traversal", 17: "destroy"},
-    6: {1: "write", 2: "writebyte", 3: "prepare/commit", 4: "rollback", 5: "resize", 6: "clear", 7: "promote", 8: "commit-over", 9: "prepare", 10: "destroy"},
+    6: {1: "write", 2: "writebyte", 3: "prepare/commit", 4: "rollback", 5: "resize", 6: "clear", 7: "promote", 8: "commit-over", 9: "prepare", 10: "destroy", 11: "write(integer)", 12: "write(boolean)", 13: "write(integer,bytes,boolean)"},
     7: {1: "at", 2: "sub"},
 }
 OPN[2] = OPN[1]
 OPN[5] = OPN[4]
 OPN[9] = OPN[6]
 OPN[10] = OPN[1]
+OPN[11] = OPN[2]
+OPN[12] = OPN[4]
+OPN[13] = OPN[3]
 MSG = {
     "PopEmpty": "attempt to pop an empty", "Pos": "position out of bounds", "Index": "index out of range",
     "NoSpace": "not enough space in string buffer", "InvalidKey": "attempt to use next for an invalid key in hashmap",
@@ -201,6 +206,7 @@ class OVec:
             i, j = [(1, 1), (1, 3), (2, 3)][a]
             if not (i >= 1 and j <= len(l) and i <= j): raise Violation("Unpack")
             return ",".join(str(x) for x in l[i - 1:j])
+        if op == 16: return "c2"        # a separate to-be-closed container: this one is untouched
         raise KeyError(op)
 
     def contents(self):
@@ -249,6 +255,7 @@ class OList:
         if op == 10: raise Violation("NilNode")
         if op == 11:
             self.l = []; return "-"
+        if op == 12: return "c2"
         raise KeyError(op)
 
     def contents(self):
@@ -369,7 +376,26 @@ class OSb:
             return impl_ret
         if op == 10:
             self.l = []; return "-"
+        if op in (11, 12, 13):
+            parts = sb_parts(op, a, b, c)
+            if self.allow_fail and impl_ret is not None and impl_ret.startswith("0,"):
+                # write(a1, a2, ...) stops at the first argument it cannot store and reports the bytes written so far
+                w = int(impl_ret[2:])
+                for k in range(len(parts)):
+                    if sum(len(x) for x in parts[:k]) == w:
+                        for x in parts[:k]: l.extend(x)
+                        self.failures += 1
+                        return impl_ret
+                return ("bad", "write reports %d bytes written, which is not a whole number of its arguments %s" % (w, [len(x) for x in parts]))
+            for x in parts: l.extend(x)
+            return "1,%d" % sum(len(x) for x in parts)
         raise KeyError(op)
+
+
+def sb_parts(op, a, b, c):
+    if op == 11: return [list(str(a).encode())]
+    if op == 12: return [list(b"true" if a != 0 else b"false")]
+    return [list(str(a).encode()), sbbytes(b, b % 41), list(b"true" if c != 0 else b"false")]
 
 
 class OSpan:
@@ -483,8 +509,9 @@ def gen_history(rng, kind, typ, nsteps, maxsize, big=False):
                 elif r < 0.965:
                     b0 = pick()     # tokens b0, b0+c, ...: only plain tokens form a progression of valid tokens
                     emit(14, rng.choice([0, 1, 2, 3, 5, 8, min(maxsize, target)]), b0, 0 if b0 >= NZ else rng.choice([0, 1, 1, 3]))
-                elif r < 0.985 and kind == 2 and n >= 1:
+                elif r < 0.98 and kind == 2 and n >= 1:
                     emit(15, rng.choice([0] + ([1, 2] if n >= 3 else [])))
+                elif r < 0.99: emit(16, pick(), pick())
                 else: emit(1, pick())
         elif kind == 3:
             if n >= maxsize: grow = False
@@ -500,6 +527,7 @@ def gen_history(rng, kind, typ, nsteps, maxsize, big=False):
                 elif r < 0.92: emit(9)
                 elif r < 0.94: emit(8)
                 elif r < 0.955: emit(11)
+                elif r < 0.97: emit(12, pick(), pick())
                 else: emit(2, pick())
         elif kind in (4, 5):
             if n >= maxsize: grow = False
@@ -560,7 +588,19 @@ def gen_sb_history(rng, nsteps, maxsize, limit=None):
             target = rng.choice(ths)
         if hi < target and r < 0.7:
             q = rng.random()
-            if q < 0.4:
+            if q < 0.12:
+                v = rng.choice([0, -1, 7, -9223372036854775808, 9223372036854775807, rng.randrange(-10**6, 10**6), s64(rng.getrandbits(64))])
+                w = rng.random()
+                if w < 0.4: ops.append((11, v, 0, 0)); grown(len(str(v)))
+                elif w < 0.6: ops.append((12, v & 1, 0, 0)); grown(4 if v & 1 else 5)
+                else:
+                    t = rng.randrange(0, 500); cb = rng.randrange(0, 2)
+                    ops.append((13, v, t, cb))
+                    # under a refusing allocator only a prefix of the arguments may be written
+                    x = len(str(v)) + t % 41 + (4 if cb else 5)
+                    if limit is None or hi + x + 1 < limit: lo += x
+                    hi += x
+            elif q < 0.4:
                 t = rng.randrange(0, 500); ops.append((1, t, 0, 0)); grown(t % 41)
             elif q < 0.6:
                 n = rng.choice([0, 1, 1, 2, 5, max(0, target - hi), max(0, target - hi - 1)])
@@ -680,6 +720,20 @@ def gen_hash_cases(rng, n):
         cases.append((4, a, s64(b), 0))
         cases.append((4, a, s64(b ^ (1 << 63)), 0))
         cases.append((7, a, s64(b), 0))
+    # arrays, pointers, spans, unions
+    for _ in range(n // 3):
+        a = s64(rng.getrandbits(64)) if rng.random() < 0.5 else rng.randrange(-50, 50)
+        b = s64(rng.getrandbits(64)) if rng.random() < 0.5 else rng.randrange(-50, 50)
+        cases.append((8, a >> 1, b >> 1, 0))
+        cases.append((12, a, b, 0))
+        cases.append((13, a, 0, 0))
+        cases.append((10, a, 0, 0))
+        cases.append((11, a, 0, 0))
+    for b in bits[:60]:
+        b2 = rng.choice(bits)
+        cases.append((9, s64(b), s64(b2), 0))
+        cases.append((9, s64(b), s64(b2 ^ (1 << 63)), 0))
+    cases.append((14, 0, 0, 0))
     return cases
 
 
@@ -1017,12 +1071,12 @@ def correspond(ctx):
         pos += 1
         evaluations += 1
         n_hash += 1
-        bump(stats["ops"], "hash.%s" % {1: "integer", 2: "float", 3: "string", 4: "record", 5: "boolean", 6: "float==", 7: "record=="}[op])
+        bump(stats["ops"], "hash.%s" % {1: "integer", 2: "float", 3: "string", 4: "record", 5: "boolean", 6: "float==", 7: "record==", 8: "array-of-integer", 9: "array-of-float", 10: "typed-pointer", 11: "pointer", 12: "span-of-integer", 13: "union", 14: "empty-array"}[op])
         if op == 6:
             if iline != ("1" if py_feq(a, b) else "0"):
                 n_oracle += 1
                 ctx.violation("hash:feq %d %d" % (a, b), "oracle", "float == on bit patterns %x, %x gives %s" % (a % 2**64, b % 2**64, iline))
-        if op in (2, 4):
+        if op in (2, 4, 9):
             hash_vals[(op, a, b)] = iline
         if iline != mline:
             n_mismatch += 1
@@ -1036,6 +1090,11 @@ def correspond(ctx):
             if other in hash_vals and py_feq(a, other[1]) and hash_vals[other] != hv:
                 n_oracle += 1
                 ctx.violation("hash:float %d" % a, "oracle", "floats with bit patterns %x and %x are == but hash to %s and %s" % (a % 2**64, other[1] % 2**64, hv, hash_vals[other]))
+        if op == 9:
+            other = (9, a, s64((b % 2**64) ^ (1 << 63)))
+            if other in hash_vals and py_feq(b, other[2]) and hash_vals[other] != hv:
+                n_oracle += 1
+                ctx.violation("hash:float-array %d %d" % (a, b), "oracle", "arrays {bits %x, bits %x} and {bits %x, bits %x} are element-wise == but hash to %s and %s" % (a % 2**64, b % 2**64, a % 2**64, other[2] % 2**64, hv, hash_vals[other]))
         if op == 4:
             other = (4, a, s64((b % 2**64) ^ (1 << 63)))
             if other in hash_vals and py_feq(b, other[2]) and hash_vals[other] != hv:
@@ -1134,13 +1193,19 @@ def correspond(ctx):
                                       "replay": "\n".join(fmt_ops(h["kind"], h["typ"], h["ops"][:st + 1], h["n"], h["dump"]))})
             elif not asan_info["identical_to_plain_build"]:
                 ctx.violation("sanitizer-output-differs", "harness", "the sanitizer build prints different results than the plain build (%d vs %d lines)" % (len(al_), len(il)), failing_input=False)
-    # ---------------- vector over an allocator refusing requests of `limit` bytes or more: the operation whose growth
-    # needs that much must raise 'out of memory' (xspanrealloc), everything before it behaves as usual
+    # ---------------- vector / sequence / hashmap / list over an allocator refusing requests of `limit` bytes or more:
+    # the operation for which the model predicts a refused request (TRAP OOM) must stop with 'out of memory',
+    # everything before it behaves as usual (one process per history)
     n_oom = 0
-    for i in range(ctx.scale(30, 600)):
-        limit = rng.choice([16, 24, 64, 100, 128, 520, 1024])
-        ops = gen_history(rng, 1, 0, rng.choice([20, 60, 120]), rng.choice([9, 17, 33, 70]))
-        lines = ["-1 0 0 0"] + fmt_ops(10, 0, ops, limit)
+    for i in range(ctx.scale(80, 1500)):
+        kind = rng.choice([10, 11, 12, 12, 13])
+        base = BASEKIND[kind]
+        limit = rng.choice({10: [16, 24, 64, 100, 128, 520, 1024], 11: [20, 30, 40, 64, 100, 130, 520, 1024],
+                            12: [60, 200, 400, 1000, 3000, 7000], 13: [20, 24, 25, 100]}[kind])
+        ops = gen_history(rng, base, 0, rng.choice([20, 60, 120]), rng.choice([9, 17, 33, 70]))
+        # the scoped to-be-closed container of the harness allocates too: leave it out here
+        ops = [o_ for o_ in ops if not ((base in (1, 2) and o_[0] == 16) or (base == 3 and o_[0] == 12))]
+        lines = ["-1 0 0 0"] + fmt_ops(kind, 0, ops, limit)
         text = "\n".join(lines) + "\n"
         rc1, iout, ierr = vlib.sh([drv_impl], input=text, timeout=60)
         rc2, mout, merr = vlib.sh([drv_model], input=text, timeout=60)
@@ -1150,38 +1215,40 @@ def correspond(ctx):
         evaluations += 1
         stop = None
         for k, ln in enumerate(ml2):
-            _, nums, _ = parse_line(ln)
-            if len(nums) >= 2 and int(nums[1]) * 8 >= limit:
+            if ln.startswith("TRAP OOM"):
                 stop = k
                 break
-        bump(stats["traps"], "vector:OutOfMemory" if stop is not None else "vector:limit-not-reached")
-        o = OVec()
+        bump(stats["traps"], "%s:%s" % (KINDS[kind], "OutOfMemory" if stop is not None else "limit-not-reached"))
+        o = make_oracle(base)
         bad = None
         upto = len(ops) if stop is None else stop
         for k in range(upto):
             if k >= len(il2):
-                bad = (k, "the implementation stopped (exit status %s: %s) although no allocation of %d bytes or more is needed" % (rc1, ierr.strip()[-120:], limit))
+                bad = (k, "the implementation stopped (exit status %s: %s) although the model sees no refused allocation (limit %d bytes)" % (rc1, ierr.strip()[-120:], limit))
                 break
-            msg = check_step(1, o, ops[k][0], ops[k][1], ops[k][2], ops[k][3], il2[k], 0)
+            try:
+                msg = check_step(base, o, ops[k][0], ops[k][1], ops[k][2], ops[k][3], il2[k], 0)
+            except Violation as v_:
+                msg = "generator produced a violating op (%s)" % v_.kind
             if msg is None and il2[k] != ml2[k]:
                 n_mismatch += 1
-                ctx.violation("model-mismatch:vector-limited-allocator", "correspondence", "step %d: model '%s', implementation '%s'" % (k, ml2[k][:200], il2[k][:200]),
-                              detail={"history": describe(10, 0, ops, k), "limit": limit}, failing_input=False)
+                ctx.violation("model-mismatch:%s" % KINDS[kind], "correspondence", "step %d: model '%s', implementation '%s'" % (k, ml2[k][:200], il2[k][:200]),
+                              detail={"history": describe(kind, 0, ops, k), "limit": limit}, failing_input=False)
                 break
             if msg is not None:
                 bad = (k, msg)
                 break
         if bad is None and stop is not None:
             if len(il2) > stop:
-                bad = (stop, "needs a block of %d bytes or more from an allocator that refuses them, but went on and printed '%s'" % (limit, il2[stop][:200]))
+                bad = (stop, "needs a block the allocator refuses (limit %d bytes) according to the model, but went on and printed '%s'" % (limit, il2[stop][:200]))
             elif rc1 == 0 or "out of memory" not in ierr:
                 bad = (stop, "was stopped, but not with 'out of memory': exit status %s, %s" % (rc1, ierr.strip()[-200:]))
         if bad is not None:
             n_oracle += 1
             k, msg = bad
-            ctx.violation(history_key(10, 0, ops, k, limit), "oracle", "vector over a limited allocator (limit %d bytes), step %d (%s %d %d %d): %s" %
-                          (limit, k, OPN[1].get(ops[k][0], ops[k][0]), ops[k][1], ops[k][2], ops[k][3], msg),
-                          detail={"history": describe(10, 0, ops, k), "replay": "printf '%s\\n' | <driver>" % "\\n".join(lines[:k + 3])})
+            ctx.violation(history_key(kind, 0, ops, k, limit), "oracle", "%s (limit %d bytes), step %d (%s %d %d %d): %s" %
+                          (KINDS[kind], limit, k, OPN[kind].get(ops[k][0], ops[k][0]), ops[k][1], ops[k][2], ops[k][3], msg),
+                          detail={"history": describe(kind, 0, ops, k), "replay": "printf '%s\\n' | <driver>" % "\\n".join(lines[:k + 3])})
     return {
         "evaluations": evaluations,
         "distinct_nontrivial": len(nontrivial),
@@ -1203,9 +1270,8 @@ def correspond(ctx):
 
 
 UNPROVED = [
-    "list __convert (needs a fixed-size array literal) and __close (an alias of destroy) are not exercised; vector/sequence __convert is exercised through conversion from a span",
-    "stringbuilder write of non-byte arguments (integer/float/boolean formatting), writef/formatarg, __tostring: not modelled (strconv/strprintf are C13/C14 territory)",
-    "hash.hash for pointers, unions, arrays, spans and records with __hash: not modelled; the string hash (hash.long) is modelled and corresponds, its coherence is trivial (byte-wise equality)",
-    "allocation failure: modelled and proved for stringbuilder (sb_step_a); for vector only the correspondence stream checks that the growth needing a refused block raises 'out of memory' (sequence/hashmap/list use the same xspanrealloc / new and are not exercised with a refusing allocator)",
+    "list __convert (needs a fixed-size array literal) is not exercised; vector/sequence __convert is exercised through conversion from a span; __close is exercised at harness level only (a scoped to-be-closed container, also under the sanitizer build), in the model it is destroy",
+    "stringbuilder write of integer/boolean arguments is modelled as write of the rendered bytes: the rendering itself (strconv.int2str) is C14's theorem and lives in another sub-project, here the driver/oracle render in OCaml/Python and the correspondence compares; float arguments (num2str), writef/formatarg and __tostring are not modelled",
+    "hash.hash of records with a user __hash: the model takes the user function as a parameter (coherent iff the user's method respects the user's ==), nothing to correspond; nested aggregates (arrays of records, ...) are covered by composition of the proved pieces but only arrays of integers/floats, span(integer), an 8-byte union and pointers are exercised",
     "independence of the hashmap's observable behaviour from the hash values is not a theorem; the model hashes tokens for non-integer key types and the correspondence shows equal observables",
 ]
